@@ -11,7 +11,7 @@ import (
 
 // ruleCC6: the here-document counter/queue protocol between the goroutines.
 func ruleCC6() Rule {
-	return Rule{ID: "CC6", Kind: "must", Floor: 5,
+	return Rule{ID: "CC6", Kind: "must", Floor: 3,
 		Doc: "here-document hand-off: the lexer announces (inc) only a here-operator whose delimiter word it has scanned; only the io_here reduction pushes; pop blocks only while the atomic counter says a push is still due, removes the oldest entry (FIFO, HD3) and decrements once per entry removed",
 		Run: func(c *Ctx, rr *core.RuleResult) {
 			inc := c.mustFn(rr, "parser.(*heredoc).inc")
